@@ -46,6 +46,7 @@ func genConfigDiff(r *vk.RNG, a *app.App, sid string) app.Config {
 	cfg.ResetOnEmptyInput = r.Chance(1, 5)
 	cfg.PersisterContent = r.Chance(1, 4)
 	cfg.Debug = r.Chance(1, 6)
+	cfg.StoreSession = r.Chance(1, 3)
 	return cfg
 }
 
